@@ -83,6 +83,8 @@ class Run(Part):
         os.makedirs(outdir, exist_ok=True)
         bykey = collections.OrderedDict()
         for v in self.violations:
+            if v["key"].startswith("BUS:"):
+                v["key"] = self.prop + v["key"][3:]
             bykey.setdefault(v["key"], []).append(v)
         known_seen = []
         unknown = []
@@ -206,6 +208,17 @@ class _guard(object):
         try:
             return self.fn(shard)
         except BaseException as e:   # report as harness failure, never as pass
+            import re as _re
+            m = _re.search(r"bus sent an undecodable message: Result\((\w+), '([^']*)'", str(e))
+            if m:
+                # the bus relayed / produced bytes that are not a valid message: a violation in whatever check
+                # observed it (Run.finish() puts the property id in front)
+                p = Part()
+                p.evaluations = 1
+                p.violation("BUS:bus-sent-invalid-message:%s" % m.group(2).split(":")[0],
+                            "a test client received a frame from the bus that is not a valid message (%s)" % m.group(2),
+                            {"shard": repr(shard)[:300]})
+                return p
             import traceback
             p = Part()
             p.inconclusive.append("worker crashed on shard %r: %s\n%s" % (shard, e, traceback.format_exc()[-1500:]))
